@@ -28,7 +28,9 @@ MIRRORS = {
     # a delay set between episodes is what the next episode simulates: no pre-drawn sample of the old distribution survives a reset
     "C16": [("c05", {"C05.reset": ("C16.phase", "node.q_sample")}, ()),
             # the trainable delay a graph is initialised with is the configured distribution's (not the expected delay used for the phases)
-            ("c10", {"C10.saturate": ("C16.bind", "default init_delays")}, ())],
+            ("c10", {"C10.saturate": ("C16.bind", "default init_delays")}, ()),
+            # ... and the generated simulation graphs use each node's configured computation delay
+            ("c12", {"C12.scan": ("C16.bind", "each node is generated")}, ())],
     # every partition is selected once (clip of the step counter) and every generation of it is visited once, in order
     "C06": [("c09", {"C09.clip": "C06.count"}, ()), ("c07", {"C07.order": "C06.count"}, ())],
     # window length of a trainable connection
